@@ -1096,7 +1096,7 @@ def lmer_lemmas(F, rep, which=None, ktypes=None):
             # len() must read only the length byte, whatever the bases are
             def f_len():
                 for ell in (0, 1, ML):
-                    sr = Ref(Cell(lt.mk(lt.words("s", ell)), "self"))
+                    sr = Ref(Cell(lt.mk(lt.words("s", ell, ell)), "self"))
                     ln, _ = run_inst(F, lt.key("Mer", "len"), [sr])
                     rep.evaluations += 1
                     if not (isinstance(ln, Int) and ln.is_conc() and ln.val == ell):
@@ -1218,6 +1218,33 @@ def lmer_lemmas(F, rep, which=None, ktypes=None):
                         expect_bits(rep, "L-lmer-getkmer", "%s/%s/pos=%d" % (tag, kty, pos), kt.storage_of(r), spec,
                                     "get_kmer::<%s>(%d) = bases %d..%d" % (kty, pos, pos, pos + K))
                     guarded(rep, "L-lmer-getkmer", "%s/%s/pos=%d" % (tag, kty, pos), "get_kmer", f)
+                # the terminal accessors (trait defaults unless the container overrides them): first / last / term(Left|Right) / both, at the
+                # full length and at lengths K+1, K+2, 2K-1, 2K where they fit (overlapping and disjoint terminal k-mers)
+                from .dt import dir_v, LEFT, RIGHT
+                for ell in sorted({e for e in (ML, K + 1, K + 2, 2 * K - 1, 2 * K) if K <= e <= ML}):
+                    for meth, extra, picks in (("first_kmer", [], [0]), ("last_kmer", [], [ell - K]), ("term_kmer", [dir_v(LEFT)], [0]),
+                                               ("term_kmer", [dir_v(RIGHT)], [ell - K]), ("both_term_kmer", [], [0, ell - K])):
+                        akey = "<%s as Vmer>::%s::<%s>" % (lt.ty, meth, kty)
+                        if akey not in F.insts:
+                            continue
+                        vk = "%s/%s/%s%s/len=%d" % (tag, kty, meth, ("(%s)" % ("Left" if picks == [0] else "Right")) if extra else "", ell)
+
+                        def g(ell=ell, kt=kt, K=K, akey=akey, vk=vk, meth=meth, extra=extra, picks=picks):
+                            sr = Ref(Cell(lt.mk(lt.words("s", ell, ell)), "self"))
+                            r, _ = run_inst(F, akey, [sr] + list(extra))
+                            outs = list(r.fields) if isinstance(r, Tup) else [r]
+                            if len(outs) != len(picks):
+                                rep.inconclusive("L-lmer-getkmer", vk, "%s returns %r" % (meth, r))
+                                return
+                            for o, pos in zip(outs, picks):
+                                spec = [ZERO] * kt.W
+                                for j in range(K):
+                                    hi, lo = kt.lane_bits(j)
+                                    spec[hi], spec[lo] = var("s", 2 * (pos + j) + 1), var("s", 2 * (pos + j))
+                                if not expect_bits(rep, "L-lmer-getkmer", vk, kt.storage_of(o), spec,
+                                                   "%s on a length-%d Lmer = bases %d..%d" % (meth, ell, pos, pos + K)):
+                                    return
+                        guarded(rep, "L-lmer-getkmer", vk, meth, g)
 
 
 # --------------------------------------------------------------------------- C11: eq / ord on k-mers
